@@ -45,6 +45,33 @@ class Pat:
                       'scrut': {'k': 'call', 'f': {'k': 'path', 'def': 'std::ops::Try::branch', 'name': 'branch'},
                                 'args': [e2['recv']]}}
                 alts.append((H.subst(cl['body'], {cl['params'][0]['name']: tr}), ctx))
+        if e2.get('k') == 'match' and not H.is_try(e2) and len(e2.get('arms', [])) == 2:
+            # `match r { Ok(n) => Ok(f(n)), Err(e) => Err(e) }` is `r.map(f)`, so under `?` it is `f(r?)`
+            ok_arm = None
+            for a_ in e2['arms']:
+                p_ = a_.get('pat', {})
+                if p_.get('k') == 'ptstruct' and p_['path'].get('name') in ('Ok', 'Some') and len(p_.get('pats', [])) == 1 and \
+                        p_['pats'][0].get('k') == 'bind' and not a_.get('guard'):
+                    b_ = strip(a_['body'])
+                    if isinstance(b_, dict) and b_.get('k') == 'call' and b_['f'].get('k') == 'path' and \
+                            b_['f'].get('name') == p_['path']['name'] and len(b_['args']) == 1:
+                        ok_arm = (p_['pats'][0]['name'], b_['args'][0])
+            other_ok = False
+            for a_ in e2['arms']:
+                p_ = a_.get('pat', {})
+                b_ = strip(a_['body'])
+                if p_.get('k') == 'ptstruct' and p_['path'].get('name') == 'Err' and len(p_.get('pats', [])) == 1 and \
+                        p_['pats'][0].get('k') == 'bind' and isinstance(b_, dict) and b_.get('k') == 'call' and \
+                        b_['f'].get('k') == 'path' and b_['f'].get('name') == 'Err' and len(b_['args']) == 1 and \
+                        strip(b_['args'][0]).get('k') == 'local' and strip(b_['args'][0])['name'] == p_['pats'][0]['name']:
+                    other_ok = True
+                if 'None' in repr(p_)[:300] and isinstance(b_, dict) and b_.get('k') == 'path' and b_.get('name') == 'None':
+                    other_ok = True
+            if ok_arm is not None and other_ok:
+                tr = {'k': 'match', 'src': 'TryDesugar(synthetic)', 'arms': [], 'ln': e2.get('ln'),
+                      'scrut': {'k': 'call', 'f': {'k': 'path', 'def': 'std::ops::Try::branch', 'name': 'branch'},
+                                'args': [e2['scrut']]}}
+                alts.append((H.subst(ok_arm[1], {ok_arm[0]: tr}), ctx))
         if e2.get('k') == 'field':
             # `v.f` where v is (bound to / returned as) a struct literal: the initialiser of f
             pf = project_field(ctx, e2)
@@ -524,6 +551,17 @@ class CLAMP(Pat):
                 return False
             e0, c = strip(ih[0]), ih[1]
             unwrap_ok = True
+            if isinstance(e0, dict) and e0.get('k') == 'call' and e0['f'].get('k') == 'path' and e0['f'].get('name') == 'Ok' \
+                    and len(e0['args']) == 1:
+                # `Ok(bounded)` with `let bounded = if .. { lo } else if .. { hi } else { n };`
+                e0, unwrap_ok = strip(e0['args'][0]), False
+        for _ in range(3):
+            if isinstance(e0, dict) and e0.get('k') == 'local':
+                its = unique_inits(c, e0['name'])
+                if len(its) == 1 and strip(its[0]) is not e0:
+                    e0 = strip(its[0])
+                    continue
+            break
         if not (isinstance(e0, dict) and e0.get('k') in ('if', 'match')):
             return False
         try:
